@@ -392,6 +392,9 @@ func (v *Verifier) step(st *State, b *ssa.BasicBlock, i int, in ssa.Instruction)
 		v.bind(st, x, p)
 		return true
 	case *ssa.Store:
+		if g, ok := x.Addr.(*ssa.Global); ok && g.Name() == "init$guard" {
+			return true // the synthetic once-only guard of a package initialiser
+		}
 		addr := v.val(st, x.Addr)
 		v.safe(st, "nil:store", ptrNonNil(addr), in)
 		et := x.Addr.Type().Underlying().(*types.Pointer).Elem()
@@ -399,6 +402,10 @@ func (v *Verifier) step(st *State, b *ssa.BasicBlock, i int, in ssa.Instruction)
 		v.store(st, addr, et, v.val(st, x.Val))
 		return true
 	case *ssa.UnOp:
+		if g, ok := x.X.(*ssa.Global); ok && x.Op == token.MUL && g.Name() == "init$guard" {
+			v.bind(st, x, tFalse) // a package initialiser is verified for its one real run
+			return true
+		}
 		v.bind(st, x, v.unop(st, x))
 		return true
 	case *ssa.BinOp:
